@@ -99,7 +99,7 @@ Proof.
     + assumption.
     + intros t' u' n' H. apply in_app_iff in H as [H|H]; [eapply Hck; eauto|].
       destruct H as [H|[]]. injection H as -> ->.
-      destruct (andb_prop _ _ Hok) as [Hok1 _]. destruct (andb_prop _ _ Hok1) as [E1 E2]. lia.
+      repeat (match goal with H : _ && _ = true |- _ => apply andb_prop in H as [? ?] end). lia.
     + intros a Ha. destruct (no_torn (wv d)) eqn:NT.
       * rewrite scan_app_tx by assumption. apply LP_app_tx; [auto|].
         intros u n ->. destruct (andb_prop _ _ Hok) as [_ F].
@@ -126,7 +126,8 @@ Proof.
     constructor; cbn [wv wd pv pd acked]; auto; try lia.
     intros t' u' n' H. specialize (Hck _ _ _ H). lia.
   - (* SRewrite *)
-    destruct (andb_prop _ _ Hok) as [Hok1 F]. destruct (andb_prop _ _ Hok1) as [E1 E2].
+    destruct (andb_prop _ _ Hok) as [Hok1 F]. destruct (andb_prop _ _ Hok1) as [Hok2 E3].
+    destruct (andb_prop _ _ Hok2) as [E1 E2].
     assert (L : forall a, In a (acked d) -> LP [(t, Some (u, n))] a).
     { intros a Ha. rewrite forallb_forall in F. specialize (F a Ha).
       apply orb_prop in F as [F|F]; [right; exists u, n; split; [reflexivity|lia]|left; cbn; left; lia]. }
@@ -230,6 +231,65 @@ Qed.
    accepted-trace property is prefix closed *)
 Theorem protocol_prefix_closed tr k : protocol_ok tr = true -> protocol_ok (firstn k tr) = true.
 Proof. apply protocol_prefix. Qed.
+
+(* ---- every logged transaction lies above the checkpoint in force before it: it is replayed ---- *)
+
+Definition eff_upto (cur : option N) (l : list ctx) : option N :=
+  match eff l with Some (u, _) => Some u | None => cur end.
+
+Lemma seg_ok_app cur l t c :
+  seg_ok cur (l ++ [(t, c)]) =
+  seg_ok cur l && match eff_upto cur l with Some u => u <? t | None => true end.
+Proof.
+  revert cur; induction l as [|[t' c'] l IH]; intros cur; cbn [app seg_ok].
+  - unfold eff_upto; cbn [eff]. now rewrite andb_true_r.
+  - rewrite IH, andb_assoc. f_equal. unfold eff_upto. cbn [eff].
+    destruct (eff l) as [[u n]|]; [reflexivity|]. destruct c' as [[u n]|]; reflexivity.
+Qed.
+
+Lemma seg_ok_prefix cur a b : seg_ok cur (a ++ b) = true -> seg_ok cur a = true.
+Proof.
+  revert cur; induction a as [|[t c] a IH]; intros cur; cbn [app seg_ok]; [reflexivity|].
+  intros H. apply andb_prop in H as [H1 H2]. rewrite H1. cbn. eapply IH; eauto.
+Qed.
+
+Lemma step_seg d s :
+  seg_ok None (scan (wv d)) = true -> step_ok d s = true ->
+  seg_ok None (scan (wv (step_disk d s))) = true.
+Proof.
+  intros I Hok.
+  assert (A : forall t ck, above_eff (scan (wv d)) t = true ->
+                           seg_ok None (scan (wv d ++ [ITx t ck])) = true).
+  { intros t ck Ab. destruct (no_torn (wv d)) eqn:NT.
+    - rewrite scan_app_tx by assumption. rewrite seg_ok_app, I. cbn.
+      unfold above_eff in Ab. unfold eff_upto. destruct (eff (scan (wv d))) as [[u n]|]; auto.
+    - now rewrite scan_app_torn. }
+  destruct s as [t ck| | | | |t u n| |]; cbn [step_disk step_ok wv] in *; auto.
+  - destruct ck as [[u n]|]; apply A.
+    + repeat (match goal with H : _ && _ = true |- _ => apply andb_prop in H as [? ?] end). assumption.
+    + assumption.
+  - now rewrite scan_app_ITorn.
+Qed.
+
+Lemma run_from_seg tr : forall d,
+  seg_ok None (scan (wv d)) = true -> protocol_from d tr = true ->
+  seg_ok None (scan (wv (run_from d tr))) = true.
+Proof.
+  induction tr as [|s tr IH]; intros d I P; cbn in *; [exact I|].
+  apply andb_prop in P as [P1 P2]. apply IH; [now apply step_seg|exact P2].
+Qed.
+
+(* at every crash point, in both modes, every transaction in the surviving log lies above the
+   checkpoint logged before it: recovery replays it instead of skipping it *)
+Theorem logged_are_replayed tr k m :
+  protocol_ok tr = true -> replayable (image m (run (firstn k tr))) = true.
+Proof.
+  intros P. assert (V : seg_ok None (scan (wv (run (firstn k tr)))) = true).
+  { apply run_from_seg; [reflexivity|now apply protocol_prefix]. }
+  unfold replayable. destruct m; cbn [image fst]; [exact V|].
+  destruct (scan_firstn_prefix (wd (run (firstn k tr))) (wv (run (firstn k tr)))) as [r E].
+  rewrite E in V. eapply seg_ok_prefix; eauto.
+Qed.
 
 (* non-vacuity: a commit, a compaction with checkpoint, a close-time rewrite, all accepted *)
 Example accepted_trace :
